@@ -124,12 +124,17 @@ func C04(t *rapid.T) *world.Scenario {
 			{"$XFF", "$XFE"}, {"$XFF$XFE", "$XFE$XFF"}, {"x$XE9y$XE9", "x$XE9y%E9"}}
 		pr := pairs[rapid.IntRange(0, len(pairs)-1).Draw(t, "twinpair")]
 		f := Pick(t, "twinfield", "X-A", "X-A", "X-B", "Cookie", "User-Agent")
-		if Pct(t, "twinweights", 25) {
+		if Pct(t, "twinweights", 35) {
 			// list fields with parameters and weights: members that differ in a parameter are
 			// different members; a list that only refuses ("identity;q=0") is not "no field"
 			wp := [][3]string{{"Accept", "application/json;version=1, application/json;version=2", "application/json;version=1"},
 				{"Accept", "application/json;version=1", "application/json;version=2"}, {"Accept", "text/html;level=1", "text/html;level=2, text/html;level=1"},
-				{"Accept-Encoding", "identity;q=0", ""}, {"Accept-Encoding", "gzip;q=0, identity;q=0.0", ""}, {"Accept-Language", "*;q=0", ""}}
+				{"Accept-Encoding", "identity;q=0", ""}, {"Accept-Encoding", "gzip;q=0, identity;q=0.0", ""}, {"Accept-Language", "*;q=0", ""},
+				// the coding aliases are whole members, not pieces of text
+				{"Accept-Encoding", "lx-gzip, identity", "lgzip, identity"}, {"Accept-Encoding", "px-compress", "pcompress"}, {"Accept-Encoding", "x-gzipped", "gzipped"},
+				// zero is zero in each of its spellings: a refusal is not the least acceptance
+				{"Accept-Encoding", "identity, gzip;q=0.000", "identity, gzip;q=0.001"}, {"Accept-Language", "en, fr;q=0.00", "en, fr;q=0.5"},
+				{"Accept", "text/html, */*;q=0.000", "text/html, */*;q=0.001"}, {"Accept-Encoding", "identity, gzip;q=0.00", "identity, gzip"}}
 			w := wp[rapid.IntRange(0, len(wp)-1).Draw(t, "twinwp")]
 			f, pr = w[0], [2]string{w[1], w[2]}
 		}
